@@ -43,7 +43,7 @@ import tempfile
 from harness import common
 from harness.common import Model, canon
 
-FACTS = ()
+FACTS = ("c11",)
 
 RULE = ("generated projects: 1-5 TOML files (includes, nested includes, diamond includes, "
         "excludes, excluded-and-included), 1-5 path rules per file from 9 shapes (`**`, "
